@@ -28,6 +28,7 @@ func srefSchemaJSON(allRoot bool) string {
    "name":{"type":"string"},
    "imm":{"type":"string","mutable":false},
    "cnt":{"type":"integer"},
+   "tags":{"type":{"key":{"type":"string"},"min":0,"max":3}},
    "sset":{"type":{"key":` + ref("N1", "strong") + `,"min":0,"max":"unlimited"}},
    "sopt":{"type":{"key":` + ref("N1", "strong") + `,"min":0,"max":1}},
    "smap":{"type":{"key":{"type":"string"},"value":` + ref("N1", "strong") + `,"min":0,"max":"unlimited"}},
@@ -239,6 +240,10 @@ func srefAlphabet(level int) []dbx.Txn {
 	add("R r1.wset+=b1 (an N2 row) + del N2 b1", opMutate("R", uR[0], "wset", "insert", uset(uN2[0])), opDelete("N2", uN2[0]))
 	add("R r1.wset+=b1 (an N2 row) + N1 a1.next:=[]", opMutate("R", uR[0], "wset", "insert", uset(uN2[0])), opUpdate("N1", n1[0], rm.Row{"next": uset()}))
 	add("R r1.wopt:=p1 (a PR row) + del PR p1", opUpdate("R", uR[0], rm.Row{"wopt": uset(uPR[0])}), opDelete("PR", uPR[0]))
+	// a set with a finite maximum above one, changed by several operations of one transaction
+	add("R r1.tags+=x ; +=y", opMutate("R", uR[0], "tags", "insert", rm.SetOf(rm.S("x"))), opMutate("R", uR[0], "tags", "insert", rm.SetOf(rm.S("y"))))
+	add("R r1.tags:=[x,y] ; -=x ; +=z", opUpdate("R", uR[0], rm.Row{"tags": rm.SetOf(rm.S("x"), rm.S("y"))}), opMutate("R", uR[0], "tags", "delete", rm.SetOf(rm.S("x"))), opMutate("R", uR[0], "tags", "insert", rm.SetOf(rm.S("z"))))
+	add("R r1.tags-=y ; +=y ; cnt:=8", opMutate("R", uR[0], "tags", "delete", rm.SetOf(rm.S("y"))), opMutate("R", uR[0], "tags", "insert", rm.SetOf(rm.S("y"))), opUpdate("R", uR[0], rm.Row{"cnt": rm.SetOf(rm.I(8))}))
 	// unique values exchanged between two committed rows (every intermediate step duplicates a value, the final state does not)
 	add("ins PR p1,p2", opInsert("PR", uPR[0], rm.Row{"name": str("peer")}), opInsert("PR", uPR2, rm.Row{"name": str("peer2")}))
 	add("swap PR p1.name<->p2.name", opUpdate("PR", uPR[0], rm.Row{"name": str("peer2")}), opUpdate("PR", uPR2, rm.Row{"name": str("peer")}))
